@@ -49,7 +49,12 @@ def _family(tier, seed):
                                sample("b1", 2, normsys("xs"), staterror("st", 2, zero=(0,))),
                                sample("b2", 2, normsys("xs"), staterror("st", 2)))])
     m3["tag"] = "mergeable-zero-unc"
-    return fam + [m, m2, m3]
+    # ... or no yield in a bin where its shape variation is non-zero
+    m4 = shapes.model([channel("SR", sample("sig", 2, normfactor()),
+                               sample("b1", 2, normsys("xs"), histosys("sh", 2), zero=(0,)),
+                               sample("b2", 2, normsys("xs"), histosys("sh", 2)))])
+    m4["tag"] = "mergeable-zero-yield"
+    return fam + [m, m2, m3, m4]
 
 
 REWRITES = ["R1", "R2", "R3a", "R3b", "R4h", "R4n", "R5", "R5s", "R6", "R7"]
